@@ -30,6 +30,7 @@ type FaultPlan struct {
 	mu    sync.Mutex
 	Rules []*FileFault
 	Fired map[string]int
+	Paths map[string]int // path -> injected faults that fired on it
 }
 
 // ErrInjected is the default error of injected file faults.
@@ -72,13 +73,33 @@ func (p *FaultPlan) hit(op, path string) *FileFault {
 	return nil
 }
 
-func (p *FaultPlan) fired(kind string) {
+func (p *FaultPlan) fired(kind string, path ...string) {
 	p.mu.Lock()
 	if p.Fired == nil {
 		p.Fired = map[string]int{}
+		p.Paths = map[string]int{}
 	}
 	p.Fired[kind]++
+	for _, x := range path {
+		p.Paths[x]++
+	}
 	p.mu.Unlock()
+}
+
+// FiredOn returns how many injected faults fired on paths with the given suffix.
+func (p *FaultPlan) FiredOn(suffix string) int {
+	if p == nil {
+		return 0
+	}
+	p.mu.Lock()
+	defer p.mu.Unlock()
+	n := 0
+	for x, v := range p.Paths {
+		if strings.HasSuffix(x, suffix) {
+			n += v
+		}
+	}
+	return n
 }
 
 func (r *FileFault) err() error {
@@ -130,7 +151,7 @@ func wrap(f *os.File, path string) *File {
 // OsOpen is os.Open.
 func OsOpen(name string) (*File, error) {
 	if r := plan().hit("open", name); r != nil {
-		plan().fired("fs-open-error")
+		plan().fired("fs-open-error", name)
 		return nil, &fs.PathError{Op: "open", Path: name, Err: r.err()}
 	}
 	f, err := os.Open(name)
@@ -143,8 +164,14 @@ func OsOpen(name string) (*File, error) {
 // OsOpenFile is os.OpenFile.
 func OsOpenFile(name string, flag int, perm os.FileMode) (*File, error) {
 	if r := plan().hit("open", name); r != nil {
-		plan().fired("fs-open-error")
+		plan().fired("fs-open-error", name)
 		return nil, &fs.PathError{Op: "open", Path: name, Err: r.err()}
+	}
+	if flag&(os.O_WRONLY|os.O_RDWR) != 0 {
+		if r := plan().hit("open-write", name); r != nil {
+			plan().fired("fs-open-for-writing-error", name)
+			return nil, &fs.PathError{Op: "open", Path: name, Err: r.err()}
+		}
 	}
 	f, err := os.OpenFile(name, flag, perm)
 	if err != nil {
@@ -193,7 +220,7 @@ func (f *File) Read(p []byte) (int, error) {
 		Yield(-20, "file-read")
 		left := f.rd.After - f.read
 		if left <= 0 {
-			plan().fired("fs-read-error")
+			plan().fired("fs-read-error", f.path)
 			return 0, &fs.PathError{Op: "read", Path: f.path, Err: f.rd.err()}
 		}
 		if len(p) > left {
@@ -216,7 +243,7 @@ func (f *File) Write(p []byte) (int, error) {
 			}
 			n, _ := f.f.Write(p[:left])
 			f.written += n
-			plan().fired("fs-write-error")
+			plan().fired("fs-write-error", f.path)
 			return n, &fs.PathError{Op: "write", Path: f.path, Err: f.wr.err()}
 		}
 	}
@@ -232,7 +259,7 @@ func (f *File) Close() error {
 		return err // close faults are injected on files opened for writing only
 	}
 	if r := plan().hit("close", f.path); r != nil {
-		plan().fired("fs-close-error")
+		plan().fired("fs-close-error", f.path)
 		return &fs.PathError{Op: "close", Path: f.path, Err: r.err()}
 	}
 	return err
